@@ -68,11 +68,20 @@ var (
 	StepFn func() int
 	// WhoFn names the goroutine performing an effect.
 	WhoFn func() string
+	// YieldFn, when set, is called at the start of every operation that a real kernel would perform as a system
+	// call: another goroutine may run between two file-system operations of the same goroutine.
+	YieldFn func(site string)
 )
 
 // Reset empties the tree; cwd is created.
 //
 //go:norace
+func yield(site string) {
+	if YieldFn != nil {
+		YieldFn(site)
+	}
+}
+
 func Reset(workdir string) {
 	root = &node{dir: true, children: map[string]*node{}}
 	cwd = workdir
@@ -268,10 +277,14 @@ func fault(op, path string) error {
 }
 
 //go:norace
-func Getwd() (string, error) { return cwd, nil }
+func Getwd() (string, error) {
+	yield("fs:Getwd")
+	return cwd, nil
+}
 
 //go:norace
 func Mkdir(p string, perm FileMode) error {
+	yield("fs:Mkdir")
 	if err := fault("mkdir", p); err != nil {
 		return perr("mkdir", p, err)
 	}
@@ -292,6 +305,7 @@ func Mkdir(p string, perm FileMode) error {
 
 //go:norace
 func MkdirAll(p string, perm FileMode) error {
+	yield("fs:MkdirAll")
 	if err := fault("mkdirall", p); err != nil {
 		return perr("mkdir", p, err)
 	}
@@ -336,6 +350,7 @@ func MkdirAll(p string, perm FileMode) error {
 
 //go:norace
 func WriteFile(name string, data []byte, perm FileMode) error {
+	yield("fs:WriteFile")
 	f, err := OpenFile(name, O_WRONLY|O_CREATE|O_TRUNC, perm)
 	if err != nil {
 		return err
@@ -349,6 +364,7 @@ func WriteFile(name string, data []byte, perm FileMode) error {
 
 //go:norace
 func ReadFile(name string) ([]byte, error) {
+	yield("fs:ReadFile")
 	_, _, target, _, err := walk(name)
 	if err != nil {
 		return nil, perr("open", name, err)
@@ -380,6 +396,7 @@ func Open(name string) (*File, error) { return OpenFile(name, O_RDONLY, 0) }
 
 //go:norace
 func OpenFile(name string, flag int, perm FileMode) (*File, error) {
+	yield("fs:OpenFile")
 	if err := fault("open", name); err != nil {
 		return nil, perr("open", name, err)
 	}
@@ -471,6 +488,7 @@ func (f *File) Close() error {
 
 //go:norace
 func Remove(name string) error {
+	yield("fs:Remove")
 	parent, base, target, abs, err := walk(name)
 	if err != nil {
 		return perr("remove", name, err)
@@ -516,6 +534,7 @@ func (i info) Sys() any { return nil }
 
 //go:norace
 func Stat(name string) (FileInfo, error) {
+	yield("fs:Stat")
 	_, base, target, _, err := walk(name)
 	if err != nil {
 		return nil, perr("stat", name, err)
@@ -584,6 +603,7 @@ var ErrClosed = fs.ErrClosed
 
 //go:norace
 func Rename(oldpath, newpath string) error {
+	yield("fs:Rename")
 	op, ob, ot, _, err := walk(oldpath)
 	if err != nil {
 		return perr("rename", oldpath, err)
@@ -606,6 +626,7 @@ func Rename(oldpath, newpath string) error {
 
 //go:norace
 func RemoveAll(p string) error {
+	yield("fs:RemoveAll")
 	parent, base, target, abs, err := walk(p)
 	if err != nil || target == nil || parent == nil {
 		return nil
@@ -617,6 +638,7 @@ func RemoveAll(p string) error {
 
 //go:norace
 func Chmod(name string, mode FileMode) error {
+	yield("fs:Chmod")
 	_, _, target, _, err := walk(name)
 	if err != nil {
 		return perr("chmod", name, err)
@@ -629,6 +651,7 @@ func Chmod(name string, mode FileMode) error {
 
 //go:norace
 func ReadDir(name string) ([]DirEntry, error) {
+	yield("fs:ReadDir")
 	_, _, target, _, err := walk(name)
 	if err != nil {
 		return nil, perr("open", name, err)
@@ -658,6 +681,7 @@ func LookupEnv(k string) (string, bool) { return "", false }
 func TempDir() string                   { return "/tmp" }
 func UserHomeDir() (string, error)      { return "/root", nil }
 func Chdir(dir string) error {
+	yield("fs:Chdir")
 	_, _, target, abs, err := walk(dir)
 	if err != nil {
 		return perr("chdir", dir, err)
